@@ -8,6 +8,7 @@ from ..core import AnalysisError, call_name, dotted, kwarg, norm, walk_no_nested
 from ..edgealg import E, edge_test, membership, rename
 from ..guards import A, And, F, Not, Or, T, atoms_of, equivalent, implies, is_call_named, path_formula, show_formula, sites, to_formula
 from ..registry import describe, rule
+from .. import tmatch as tm
 from ..util import assigned_value, calls_named, is_method_call, peel, resolve, returns_of
 
 PCF = "pgmpy/estimators/PC.py"
@@ -385,6 +386,26 @@ def sepset(rc):
                     rc.fail(fi, x, "the parallel variant must return the tested pair and set")
     if len(calls) < 3:
         rc.fail(fi, fi.node, "each variant must consult the CI test", construct="ci calls")
+    # candidate separating sets: subsets of adj(u) minus v AND of adj(v) minus u (both endpoints), in every variant
+    n_ch = 0
+    for ch in [n for n in ast.walk(fi.node) if isinstance(n, ast.Call) and call_name(n) == "chain" and len(n.args) == 2]:
+        pairs = []
+        for a in ch.args:
+            b = None
+            for t in ("combinations(set(__G.neighbors(_a)) - set([_b]), lim_neighbors)", "combinations(set(_N[_a]) - set([_b]), lim_neighbors)",
+                      "combinations(set(__G.neighbors(_a)) - {_b}, lim_neighbors)", "combinations(set(_N[_a]) - {_b}, lim_neighbors)",
+                      "combinations(_N[_a] - {_b}, lim_neighbors)", "combinations(_N[_a] - set([_b]), lim_neighbors)"):
+                b = b or tm.is_(a, t)
+            pairs.append((b["_a"], b["_b"]) if b else None)
+        if None in pairs:
+            continue
+        n_ch += 1
+        rc.ob(f"candidate separating sets: adj({pairs[0][0]}) minus {pairs[0][1]}, adj({pairs[1][0]}) minus {pairs[1][1]}")
+        if not (pairs[0][0] != pairs[1][0] and pairs[0] == pairs[1][::-1]):
+            rc.fail(fi, ch, f"candidate separating sets must be drawn from the neighbours of BOTH endpoints (adj(u)∖{{v}} and adj(v)∖{{u}}); found adj({pairs[0][0]})∖{pairs[0][1]} and "
+                    f"adj({pairs[1][0]})∖{pairs[1][1]} — a pair separable only through a neighbour of the other endpoint keeps its edge", construct="separating set candidates")
+    if n_ch < 3:
+        rc.fail(fi, fi.node, "every variant must enumerate the candidate separating sets of both endpoints", construct="separating set candidates missing")
     # the level loop tries every conditioning-set size 0..max_cond_vars (event order simulated on a small bound)
     wl = [n for n in walk_no_nested(fi.node) if isinstance(n, ast.While)]
     if not wl:
@@ -594,6 +615,9 @@ def defuse(rc):
     _sh.defuse_rule(rc, _sh.anchor_files("C12"))
 
 MUTANTS = [
+    dict(kind="break", name="stable-candidates-from-one-endpoint", file=PCF, expect="C12.sepset",
+         old="                        combinations(set(neighbors[u]) - set([v]), lim_neighbors),\n                        combinations(set(neighbors[v]) - set([u]), lim_neighbors),",
+         new="                        combinations(set(neighbors[u]) - set([v]), lim_neighbors),\n                        combinations(set(neighbors[u]) - set([v]), lim_neighbors),"),
     dict(kind="break", name="r1-one-direction", file=PCF, expect="C12.rules",
          old="if not pdag.has_edge(X, Y) and not pdag.has_edge(Y, X):", new="if not pdag.has_edge(X, Y):"),
     dict(kind="break", name="v-structure-ignores-sepset", file=PCF, expect="C12.rules",
